@@ -127,6 +127,24 @@ def vec_reserve(m, st, ctx, args, span):
     return UNIT          # capacity only: contents and length are unchanged
 
 
+@model("std::vec::Vec::<T, A>::set_len")
+def vec_set_len(m, st, ctx, args, span):
+    r, n = args
+    vec = deref(r)
+    if isinstance(vec, VecV):
+        if vec.elems is not None:
+            if n.is_const() and n.cval() <= len(vec.elems):
+                store(r, VecV(elems=vec.elems[:n.cval()], cap=vec.cap))
+                return UNIT
+            if not vec.elems:
+                store(r, VecV(content=E("uninit_vec", ()), length=n, cap=vec.cap))
+                return UNIT
+        else:
+            store(r, VecV(content=vec.content, length=n, cap=vec.cap))
+            return UNIT
+    raise Unsupported("set_len on %r" % (vec,))
+
+
 @model("std::vec::Vec::<T, A>::extend_from_slice")
 def vec_extend(m, st, ctx, args, span):
     r, s = args
@@ -593,6 +611,106 @@ def m_saturating_add(m, st, ctx, args, span):
     return Int(a.w, False, E("saturating_add", (a.e, b.e), a.w))
 
 
+@model("core::bool::<impl bool>::then_some")
+def m_then_some(m, st, ctx, args, span):
+    c, v = args
+    if isinstance(c, Int):
+        if c.is_const():
+            return some(v) if c.cval() else none()
+        return Fork(c.e, [(1, some(v)), (0, none())])
+    raise Unsupported("then_some on %r" % (c,))
+
+
+def _from_bool(m, st, ctx, args, span):
+    import re
+    mt = re.search(r"From<bool> for (\w+)>::from", ctx.name)
+    ii = int_info({"k": "uint" if mt.group(1)[0] == "u" else "int", "name": mt.group(1)}, m.ptr_bits) if mt else None
+    if ii and isinstance(args[0], Int):
+        return int_cast(args[0], ii[0], ii[1])
+    raise Unsupported("From<bool> " + ctx.name)
+
+
+for _t in ("u8", "u16", "u32", "u64", "usize", "i32", "i64", "isize"):
+    MODELS["core::convert::num::<impl std::convert::From<bool> for %s>::from" % _t] = _from_bool
+    MODELS["std::convert::num::<impl std::convert::From<bool> for %s>::from" % _t] = _from_bool
+
+
+def _from_widen(m, st, ctx, args, span):
+    import re
+    mt = re.search(r"From<(\w+)> for (\w+)>::from", ctx.name)
+    if mt and isinstance(args[0], Int):
+        t = mt.group(2)
+        ii = int_info({"k": "uint" if t[0] == "u" else "int", "name": t}, m.ptr_bits)
+        if ii:
+            return int_cast(args[0], ii[0], ii[1])
+    raise Unsupported("From " + ctx.name)
+
+
+for _a, _b in (("u8", "u32"), ("u8", "u64"), ("u8", "usize"), ("u16", "u32"), ("u32", "u64"), ("u16", "u64"), ("u8", "u16"), ("i32", "i64"), ("u32", "i64"), ("u32", "usize")):
+    MODELS["core::convert::num::<impl std::convert::From<%s> for %s>::from" % (_a, _b)] = _from_widen
+    MODELS["std::convert::num::<impl std::convert::From<%s> for %s>::from" % (_a, _b)] = _from_widen
+
+
+@model("std::slice::<impl [V]>::concat", "std::slice::<impl [T]>::concat")
+def m_concat(m, st, ctx, args, span):
+    s = args[0]
+    parts = slice_elems(m, s)
+    if parts is None:
+        raise Unsupported("concat of %r" % (s,))
+    out = []
+    for p_ in parts:
+        el = slice_elems(m, p_) if not isinstance(p_, Arr) else p_.elems
+        if el is None:
+            raise Unsupported("concat part %r" % (p_,))
+        out.extend(el)
+    return VecV(elems=list(out), cap=usize(m, len(out)))
+
+
+@model("std::option::Option::<T>::take")
+def m_option_take(m, st, ctx, args, span):
+    r = args[0]
+    if isinstance(r, Ref):
+        old = deref(r)
+        store(r, none())
+        return old
+    raise Unsupported("Option::take on %r" % (r,))
+
+
+@model("std::mem::replace")
+def m_mem_replace(m, st, ctx, args, span):
+    r, v = args
+    if isinstance(r, Ref):
+        old = deref(r)
+        store(r, v)
+        return old
+    raise Unsupported("mem::replace on %r" % (r,))
+
+
+@model("std::option::Option::<T>::unwrap_or_else", "std::result::Result::<T, E>::unwrap_or_else")
+def m_unwrap_or_else(m, st, ctx, args, span):
+    v, f = args
+    if isinstance(v, Adt) and v.path in ("std::option::Option", "std::result::Result"):
+        ok_variant = 1 if v.path == "std::option::Option" else 0
+        if v.variant == ok_variant:
+            return v.fields[0]
+        if isinstance(f, ClosureV):
+            cb = m.facts.body(f.path)
+            by_ref = bool(cb) and cb["locals"][1]["ty"].get("k") == "ref"
+            return Enter(f.path, [Ref(Cell(f), (), True) if by_ref else f] + ([v.fields[0]] if (v.fields and cb and cb["arg_count"] > 1) else []))
+        raise Unsupported("unwrap_or_else fallback %r" % (f,))
+    if isinstance(v, Opaque) and "Option" in ctx.name:
+        cond = E("is_some", (v.e,), 1)
+        payload = m.sym_value(E("some_payload", (v.e,)), ctx.dest_ty) if ctx.dest_ty else Opaque(E("some_payload", (v.e,)))
+        if isinstance(f, ClosureV):
+            # None: the fallback closure runs; we only support fallbacks that diverge (panic): evaluated by the caller through Fork+DIVERGE
+            cv = m.facts.body(f.path)
+            diverges = cv is not None and all(b_["term"]["k"] != "return" for b_ in cv["blocks"] if not b_["cleanup"]) if cv else False
+            if diverges:
+                m.event(st, "diverge-fallback", ctx.name, [v], None, span)
+                return Fork(cond, [(1, payload), (0, DIVERGE)])
+    raise Unsupported("unwrap_or_else on %r with %r" % (v, f))
+
+
 @model("std::ops::RangeInclusive::<Idx>::new")
 def m_range_incl_new(m, st, ctx, args, span):
     return Adt("std::ops::RangeInclusive", 0, "RangeInclusive", [args[0], args[1], int_const(0, 1)], ["start", "end", "exhausted"])
@@ -696,6 +814,27 @@ def m_nonnull_new(m, st, ctx, args, span):
         cond = E("nonnull", (p.e,), 1)
         return Fork(cond, [(1, some(Adt("std::ptr::NonNull", 0, "NonNull", [p], ["pointer"]))), (0, none())])
     raise Unsupported("NonNull::new(%r)" % (p,))
+
+
+@model("<std::option::Option<T> as std::ops::Try>::branch")
+def m_option_branch(m, st, ctx, args, span):
+    # `opt?`: Some(v) -> ControlFlow::Continue(v), None -> ControlFlow::Break(None).
+    o = deref(args[0]) if isinstance(args[0], Ref) else args[0]
+    cont = lambda v: Adt("std::ops::ControlFlow", 0, "Continue", [v], ["0"])
+    brk = Adt("std::ops::ControlFlow", 1, "Break", [none()], ["0"])
+    if isinstance(o, Adt) and o.path == "std::option::Option":
+        return cont(o.fields[0]) if o.variant == 1 else brk
+    if isinstance(o, Opaque):
+        cond = E("is_some", (o.e,), 1)
+        t = next((g["ty"] for g in ctx.gargs if g.get("ty")), None)
+        pe = E("some_payload", (o.e,))
+        return Fork(cond, [(1, cont(m.sym_value(pe, t) if t else Opaque(pe))), (0, brk)])
+    raise Unsupported("Option::branch(%r)" % (o,))
+
+
+@model("<std::option::Option<T> as std::ops::FromResidual<std::option::Option<std::convert::Infallible>>>::from_residual")
+def m_option_from_residual(m, st, ctx, args, span):
+    return none()
 
 
 @model("std::ptr::NonNull::<T>::new_unchecked")
@@ -812,7 +951,8 @@ def m_copy_nonoverlapping(m, st, ctx, args, span):
         tgt = deref(dst)
         if isinstance(tgt, VecV) and isinstance(src, Int):
             m.event(st, "raw_read", name, [src, dst, cnt], None, span, extra={"src": src, "count": cnt})
-            store(dst, VecV(content=E("mem", (src.e, cnt.e)), length=tgt.length(m.ptr_bits), cap=tgt.cap))
+            ln = tgt.length(m.ptr_bits)
+            store(dst, VecV(content=E("mem", (src.e, cnt.e)), length=ln, cap=tgt.cap))
             return UNIT
         raise Unsupported("copy into tracked %r from %r" % (tgt, src))
     if isinstance(dst, Int):
@@ -869,6 +1009,24 @@ def m_ref_cmp(m, st, ctx, args, span):
         return Int(1, False, E(op, (a.e, b.e), 1))
     if isinstance(a, Int) and isinstance(b, Int):
         return int_cmp("Ne" if ctx.name.endswith("::ne") else "Eq", a, b)
+    raise Unsupported("PartialEq on %r, %r" % (a, b))
+
+
+@model("std::cmp::PartialEq::ne", "std::cmp::PartialEq::eq", "<std::option::Option<T> as std::cmp::PartialEq>::eq",
+       "<std::option::Option<T> as std::cmp::PartialEq>::ne")
+def m_partial_eq(m, st, ctx, args, span):
+    a, b = deref(args[0]), deref(args[1])
+    ne = ctx.name.endswith("::ne")
+    if isinstance(a, Adt) and isinstance(b, Adt) and a.path == b.path == "std::option::Option":
+        if a.variant != b.variant:
+            return int_const(1 if ne else 0, 1)
+        if a.variant == 0:
+            return int_const(0 if ne else 1, 1)
+        x, y = deref(a.fields[0]), deref(b.fields[0])
+        if isinstance(x, Opaque) and isinstance(y, Opaque):
+            return Int(1, False, E("str_ne" if ne else "str_eq", (x.e, y.e), 1))
+        if isinstance(x, Int) and isinstance(y, Int):
+            return int_cmp("Ne" if ne else "Eq", x, y)
     raise Unsupported("PartialEq on %r, %r" % (a, b))
 
 
@@ -986,6 +1144,30 @@ def _mk_from_fn_shim():
             "locals": locs, "debug": [], "blocks": blocks}
 
 
+def _mk_option_map_shim():
+    # fn map(opt, f) -> Option<U> { match opt { None => None, Some(x) => Some(f(x)) } }
+    # locals: 0 ret, 1 opt, 2 f, 3 discr, 4 x, 5 &mut f, 6 args, 7 r
+    OPT = {"k": "adt", "path": "std::option::Option"}
+    def agg(variant, name, ops):
+        return {"k": "aggregate", "kind": {"k": "adt", "path": "std::option::Option", "variant": variant, "variant_name": name,
+                                           "fields": ["0"] if ops else [], "args": []}, "ops": ops}
+    blocks = [
+        {"cleanup": False, "stmts": [{"k": "assign", "place": _pl(3), "rv": {"k": "discr", "place": _pl(1)}, "span": None}],
+         "term": {"k": "switch", "discr": _move(3), "discr_ty": _ANY, "arms": [["0", 3]], "otherwise": 1}},
+        {"cleanup": False, "stmts": [
+            {"k": "assign", "place": _pl(4), "rv": {"k": "use", "op": _move(1, {"k": "downcast", "variant": 1, "name": "Some"}, {"k": "field", "i": 0, "name": "0", "ty": _ANY})}, "span": None},
+            {"k": "assign", "place": _pl(6), "rv": {"k": "aggregate", "kind": {"k": "tuple"}, "ops": [_move(4)]}, "span": None},
+            {"k": "assign", "place": _pl(5), "rv": {"k": "ref", "mut": True, "place": _pl(2)}, "span": None}],
+         "term": {"k": "call", "callee": _callee("std::ops::FnMut::call_mut"), "args": [_move(5), _move(6)], "dest": _pl(7), "target": 2, "unwind": "continue", "span": None}},
+        {"cleanup": False, "stmts": [{"k": "assign", "place": _pl(0), "rv": agg(1, "Some", [_move(7)]), "span": None}], "term": {"k": "return"}},
+        {"cleanup": False, "stmts": [{"k": "assign", "place": _pl(0), "rv": agg(0, "None", []), "span": None}], "term": {"k": "return"}},
+    ]
+    return {"path": "__shim::option_map", "promoted": None, "def_kind": "Fn", "span": {"file": "<shim>", "line": 0}, "arg_count": 2,
+            "locals": [{"ty": _ANY} for _ in range(8)], "debug": [], "blocks": blocks}
+
+
+SHIMS["__shim::option_map"] = _mk_option_map_shim()
+SHIMS["std::option::Option::<T>::map"] = SHIMS["__shim::option_map"]
 SHIMS["__shim::from_fn"] = _mk_from_fn_shim()
 SHIMS["std::array::from_fn"] = SHIMS["__shim::from_fn"]
 SHIMS["__shim::fold"] = _mk_fold_shim()
